@@ -145,6 +145,11 @@ func (s *status) UpdateShardMetadata(namespace string, shard int64, shardMetadat
 	if !exist {
 		return
 	}
+	if current, exist := ns.Shards[shard]; !exist || current.Status == model.ShardStatusDeleting {
+		// The shard was deleted, or marked for deletion, in the meantime: an election or a
+		// swap that was still in flight must not bring it back
+		return
+	}
 	ns.Shards[shard] = shardMetadata
 	_ = backoff.RetryNotify(func() error {
 		versionID, err := s.metadata.Store(clonedStatus, s.currentVersionID)
